@@ -475,7 +475,7 @@ let make_m1 (params : string list) : machine =
          | XOk -> ignore (fdo (FLoad (z_of_string v)))
          | _ -> ())
     | [ "load"; v ] -> ignore (fdo (FLoad (z_of_string v)))
-    | [ "lvfo"; v ] -> ignore (fdo (FLvfo (z_of_string v)))
+    | [ "lvfo"; v ] | [ "wlvfo"; v ] -> ignore (fdo (FLvfo (z_of_string v)))
     | [ ("prune" | "wprune"); n ] -> ignore (fdo (FPrune (z_of_string n)))
     | [ "savecs"; pairs ] ->
         let dirty = (match !fs.ms.root with Some t -> int_of_z (node_meta t).ver = 0 | None -> false) in
@@ -502,8 +502,8 @@ let make_m1 (params : string list) : machine =
       (String.concat "," (List.map (fun (k, (u, v)) -> Printf.sprintf "%s=%s@%d" (hex_of_bytes k) (hex_of_bytes v) (int_of_z u)) !fs.fidx)) in
   let rec step1 (toks : string list) : string =
         match toks with
-        | [ ("prune" | "lvfo" | "wprune") as o; n ]
-          when out_of_contract (if o = "lvfo" then OLvfo (z_of_string n) else OPrune (z_of_string n)) ->
+        | [ ("prune" | "lvfo" | "wprune" | "wlvfo") as o; n ]
+          when out_of_contract (if o = "lvfo" || o = "wlvfo" then OLvfo (z_of_string n) else OPrune (z_of_string n)) ->
             (* accepted by the model but outside the contract (deleting the version the working tree
                is based on, rolling back to version 0): not compared from here on *)
             raise Out_of_contract
@@ -580,6 +580,36 @@ let make_m1 (params : string list) : machine =
             st := s';
             (match x with XOk -> rk := List.filter (fun w -> int_of_z w <= int_of_string v) !rk | _ -> ());
             show_out x
+        | [ "wlvfo"; v ] ->
+            (* the physical writes of a rollback, in order: Store.rollback_ops on the physical
+               database, then - when the index is enabled and the label no longer names the latest
+               version - Store.rebuild_ops (the functions CrashFacts classifies the cut points of) *)
+            let impl = (match !current_expected with Some e -> e | None -> "") in
+            let s', x = m_step !st (OLvfo (z_of_string v)) in
+            (match x with
+             | XOk ->
+                 let d = { nodes1 = phys_of !rk !st.forest;
+                           fastidx = List.map (fun (k, (_, vl)) -> (k, vl)) !fs.fidx; label = !fs.dlabel } in
+                 let ops1 = rollback_ops d (z_of_string v) in
+                 let d1 = apply_ops d ops1 in
+                 let latest' = (match snd (m_step s' OLatest) with XInt z -> z | _ -> Z0) in
+                 let tree' = (match List.rev s'.forest with (_, t) :: _ -> t | [] -> None) in
+                 let need = !fast && (match d1.label with None -> true | Some l -> int_of_z l <> int_of_z latest') in
+                 let ops2 = if need then rebuild_ops d1 latest' tree' else [] in
+                 let kstr (a, b) = Printf.sprintf "%d.%d" (int_of_z a) (int_of_z b) in
+                 let show = function
+                   | WSet (KNode k, _) -> "s" ^ kstr k
+                   | WDel (KNode k) -> "d" ^ kstr k
+                   | WSet (KFast k, VFast vl) -> "fs:" ^ hex_of_bytes k ^ "=" ^ hex_of_bytes vl
+                   | WDel (KFast k) -> "fd:" ^ hex_of_bytes k
+                   | WSet (KLabel, VLabel None) -> "L:1.0.0"
+                   | WSet (KLabel, VLabel (Some l)) -> "L:1.1.0-" ^ string_of_z l
+                   | _ -> "?" in
+                 st := s';
+                 rk := List.filter (fun w -> int_of_z w <= int_of_string v) !rk;
+                 if starts_with "wl-nowrap(" impl then "wl-nowrap(ok)"
+                 else "wl(ok;ops=" ^ String.concat "," (List.map show (ops1 @ ops2)) ^ ")"
+             | _ -> st := s'; if starts_with "wl-nowrap(" impl then "wl-nowrap(err)" else "wl(err;ops=)")
         | [ "wprune"; n ] ->
             let impl = (match !current_expected with Some e -> e | None -> "") in
             if starts_with "wp-nowrap(" impl || impl = "" then
